@@ -40,12 +40,16 @@ def build_items_rs(unit, work):
     segs = vf.parse_template(os.path.join(unit_dir, "unit.rs"))
     types, impls, free = [], {}, []
     order = []
-    for seg in segs:
-        if seg[0] != "item":
+    meta = json.load(open(os.path.join(unit_dir, "unit.json")))
+    all_items = [seg[1] for seg in segs if seg[0] == "item" and seg[1]["kind"] != "region"]
+    # extra items only the replay build needs (whole functions outside the Verus subset compile fine with rustc)
+    all_items += meta.get("replay_items", [])
+    seen = set()
+    for attrs in all_items:
+        key = (attrs["kind"], attrs["name"], attrs.get("impl"))
+        if key in seen:
             continue
-        attrs = seg[1]
-        if attrs["file"].startswith("@verif/"):
-            continue
+        seen.add(key)
         ex = X.extract(os.path.join(vf.REPO, attrs["file"]), attrs["kind"], attrs["name"], attrs.get("impl"))
         if attrs["kind"] in ("struct", "enum"):
             types.append(_plain_type_text(ex["text"]))
